@@ -42,7 +42,7 @@ CLAIMED = {
  'C06': dict(
     text='Slice: session_sid::valid_sid accepts exactly the language I[0-9a-f]{32} and hands on exactly the 32 digits; new identifiers are 32 lower-case hex digits (tohex exact for 16 bytes); '
          'protocol skeletons of session_sid::save/load/clear: storage is addressed only with an identifier that passed valid_sid or was freshly generated, a reset removes the old id and issues a fresh one, '
-         'a loaded session past its deadline is removed and not returned, clear removes the stored session and clears the cookie.',
+         'a loaded session past its deadline is removed and not returned, clear removes the stored session and clears the cookie. The in-memory storage (session_memory_storage: save / load / remove / short_gc) is under contract over abstract containers: a session is returned only under the id it was saved under and only while its deadline has not passed, with the stored data and deadline; save keeps one deadline entry per session; remove takes the session out of both structures; the opportunistic collection never removes a live session.',
     note=TRUST + 'Identifiers in the skeletons are abstracted to tags; storage, cookie accessors, time() and the random device are stubs. Not covered: session_interface (values, exposed flags, age, expiration modes), '
          'session_dual, memory/tcp storages, unpredictability of identifiers, histories over browsers and clocks.',
     design='4 (C05/C06)', technique='cbmc code contracts (dfcc) on extracted C: exact-language contract, protocol skeletons with ghost tags'),
